@@ -1076,6 +1076,11 @@ class ListBox(Widget, WidgetContainerMixin):
         (maxcol, maxrow) = size
 
         if offset_inset >= 0:
+            if offset_inset == maxrow > 0:
+                target, _ignore = self._body.get_focus()
+                if target is not None and not target.rows((maxcol,), True):
+                    # a widget without rows aligned with the bottom edge
+                    offset_inset = maxrow - 1
             if offset_inset >= maxrow:
                 raise ListBoxError(f"Invalid offset_inset: {offset_inset!r}, only {maxrow!r} rows in list box")
             self.offset_rows = offset_inset
